@@ -124,11 +124,11 @@ fn deduplicate_select_items(items: &mut Vec<SelectItem>) {
     // Dropping all duplicated identifiers
     let mut seen = HashSet::new();
     items.retain(|select_item| match select_item {
+        // an item is a duplicate if the same (qualified) name has been selected before
         SelectItem::UnnamedExpr(sql_ast::Expr::CompoundIdentifier(idents)) => {
-            // If any of the identifiers hadn't been seen yet, retain the expr
-            idents.iter().any(|ident| seen.insert(ident.clone()))
+            seen.insert(idents.clone())
         }
-        SelectItem::ExprWithAlias { alias, .. } => seen.insert(alias.clone()),
+        SelectItem::ExprWithAlias { alias, .. } => seen.insert(vec![alias.clone()]),
         _ => true,
     });
 }
